@@ -681,7 +681,7 @@ impl<'a, Context: ServerContext> HttpRouterIter<'a, Context> {
             }
             Some(HttpRouterEdges::VariableRest(varname, node)) => {
                 Box::new(std::iter::once((
-                    PathSegment::VarnameSegment(varname.clone()),
+                    PathSegment::VarnameWildcard(varname.clone()),
                     node,
                 )))
             }
